@@ -203,6 +203,22 @@ def run(ctx):
             for k, v in exp.items():
                 if got.get(p + k) != v:
                     gen_fail.append((cn, "%s%s = %s, expected %s (type hash 0x%08x)" % (p, k, got.get(p + k), v, want)))
+    # nested buffers: a nested buffer carries exactly the identifier IT was finished with, whatever identifier the enclosing buffer carries
+    pids = ["null", "5041524e", "50005241", "00000000", "ffffffff"]; nids = ["null", "4e455354", "00000000", "4e000054"]
+    nl = ["ident nstored %s %s" % (p, n) for p in pids for n in nids]
+    rc_n, out_n, err_n = run_lines(h, nl)
+    res_n = dict(zip(nl, out_n))
+    for p in pids:
+        for n in nids:
+            o = res_n["ident nstored %s %s" % (p, n)]; base = res_n["ident nstored null %s" % n]
+            mo, mb = re.match(r"outer (\w+) nested (\d+) (\w+)", o), re.match(r"outer (\w+) nested (\d+) (\w+)", base)
+            if not mo or not mb:
+                gen_fail.append(("nested", "nested identifier scenario failed: %s / %s %s" % (o[:80], base[:80], err_n[-300:]))); continue
+            if mo.group(3) != mb.group(3):
+                gen_fail.append(("nested", "a nested buffer finished with identifier %s inside a buffer with identifier %s is %s, inside a buffer without identifier %s: "
+                                           "it does not carry exactly the identifier it was finished with" % (n, p, mo.group(3), mb.group(3))))
+            elif n not in ("null", "00000000") and mo.group(3)[8:16] != n:
+                gen_fail.append(("nested", "nested buffer finished with identifier %s carries %s" % (n, mo.group(3)[8:16])))
     known = {f["id"]: f for f in load_known() if f["property"] == "C17" and f["status"] == "known"}
     if spec_fail or gen_fail:
         if spec_fail:
